@@ -12,6 +12,7 @@ mod c01;
 mod c03;
 mod c14;
 mod ser;
+mod c04;
 mod c05;
 mod c10;
 mod c11;
@@ -65,6 +66,7 @@ fn main() {
             "C02" => c01::replay(&rep, case, "C02"),
             "C03" => c03::replay(&rep, case),
             "C14" => c14::replay(&rep, case),
+            "C04" => c04::replay(&rep, case),
             "C05" => c05::replay(&rep, case),
             "C10" => c10::replay(&rep, case),
             "C11" => c11::replay(&rep, case),
@@ -84,6 +86,7 @@ fn main() {
         "C02" => c01::run_c02(&rep),
         "C03" => c03::run(&rep),
         "C14" => c14::run(&rep),
+        "C04" => c04::run(&rep),
         "C05" => c05::run(&rep),
         "C10" => c10::run(&rep),
         "C11" => c11::run(&rep),
